@@ -236,6 +236,21 @@ def run(ck, facts):
         sites = [x for g_ in C.fns_inl(tool, f, depth=1) for x in C.calls_in(C.fn_body(g_)) if x.get("k") == "mcall" and x.get("m") == "add_file"]
         ck.expect(len(sites) >= min_sites, "R4", "%s::run/add_file-sites" % b, "%d" % len(sites), "only %d add_file sites in %s::run" % (len(sites), b), C.loc(f))
 
+    # ---------------- R4 (cont.) a file name is the type's (already unique) name with an extension: no backend folds case or word boundaries into it -- two types whose names
+    # differ (`HTTPServer`, `HttpServer`) get two files
+    FOLD = {"to_snake_case", "to_lowercase", "to_uppercase", "to_ascii_lowercase", "to_ascii_uppercase", "to_lower_camel_case", "to_upper_camel_case", "to_kebab_case",
+            "to_shouty_snake_case", "to_title_case", "to_pascal_case", "to_snek_case", "trim_matches", "replace"}
+    nfn_ = 0
+    for f in tool.fn_list:
+        if "hir" not in f or f.get("dk") == "Closure" or not f["path"].endswith("::fmt_file_name"):
+            continue
+        nfn_ += 1
+        folds = sorted({x.get("m") for x in C.walk_inl(tool, C.fn_body(f), 1, exclude=[f["path"]]) if x.get("k") == "mcall" and x.get("m") in FOLD})
+        ck.expect(not folds, "R4", "%s/name-kept-as-is" % C.norm_path(f["path"]).replace("diplomat_tool::", ""), "", "%s passes the type name through %s: distinct type names can fall on one file name "
+                  "(the duplicate is rejected with a panic, or one type's file silently replaces another's)" % (f["name"], folds), C.loc(f))
+    if nfn_ < 2:
+        ck.bad("R4", "fmt_file_name/floor", "only %d fmt_file_name functions found (3 counted)" % nfn_)
+
     # ---------------- R5 per-item scratch is reset in every sibling item loop
     n5 = 0
     for f in tool.fn_list:
